@@ -146,19 +146,33 @@ def run(prog, rep):
         arg = e.call.args[0]
         if not (isinstance(arg, ast.Call) and call_name(arg) == "ET.Element" and len(arg.args) == 1):
             continue
-        n_exp += 1
-        tag = unparse(arg.args[0])
-        gs = e.guards()
-        m1 = re.match(r"^(.+)\.tag$", tag)
-        m2 = re.match(r"^%s\._version_map\[(.+)\.tag\]$" % re.escape(hv.params[0]), tag)
-        if m2:
-            good = ("%s.tag in %s._version_map" % (m2.group(1), hv.params[0]), True) in gs
-        elif m1:
-            good = any(p0 and re.match(r"^%s\.tag in (?:\w+\.)?Property\.arguments_keys$" % re.escape(m1.group(1)), t0) for t0, p0 in gs)
-        else:
-            good = False
-        rep.check(good, "TAB-11", "_handle_value exports %s under its table test" % tag[:50], "ok",
-                  "_handle_value creates element %s without the matching table test (conditions %s)" % (tag, gs), where(e.func, e.raw))
+        # the tag may be a local that is bound differently per table (`export_tag = e.tag` / `= self._version_map[e.tag]`): one case
+        # per definition that reaches the construction, each with the conditions of that definition
+        cases = [(unparse(arg.args[0]), e.guards())]
+        if isinstance(arg.args[0], ast.Name):
+            from ..dataflow import reaching_defs, def_value
+            from ..symtext import _guards_at
+            tagname = arg.args[0].id
+            # where the element was constructed: at the append itself, or at the single definition of the appended local
+            at = e.inner
+            if isinstance(e.raw.args[0], ast.Name):
+                d0 = [d for d in reaching_defs(e.x.g, e.inner, e.raw.args[0].id) if d.kind != "entry"]
+                at = d0[0] if len(d0) == 1 else e.inner
+            ds = [d for d in reaching_defs(e.x.g, at, tagname) if d.kind != "entry" and def_value(d, tagname) is not None]
+            if ds:
+                cases = [(e.x.text(def_value(d, tagname), d), list(e.outer) + _guards_at(e.x, d)) for d in ds]
+        for tag, gs in cases:
+            n_exp += 1
+            m1 = re.match(r"^(.+)\.tag$", tag)
+            m2 = re.match(r"^%s\._version_map\[(.+)\.tag\]$" % re.escape(hv.params[0]), tag)
+            if m2:
+                good = ("%s.tag in %s._version_map" % (m2.group(1), hv.params[0]), True) in gs
+            elif m1:
+                good = any(p0 and re.match(r"^%s\.tag in (?:\w+\.)?Property\.arguments_keys$" % re.escape(m1.group(1)), t0) for t0, p0 in gs)
+            else:
+                good = False
+            rep.check(good, "TAB-11", "_handle_value exports %s under its table test" % tag[:50], "ok",
+                      "_handle_value creates element %s without the matching table test (conditions %s)" % (tag, gs), where(e.func, e.raw))
     rep.floor("TAB-11", n_exp, 2, "exports in _handle_value")
     vm = fd.class_attr(vc, "_version_map")
     pkeys = set(tabs["Property"]["_args"])
@@ -204,7 +218,7 @@ def run(prog, rep):
         rep.check(bool(fresh) and all(g.dominates(fresh[0], a0) for a0 in app), "PROV-8", "the fresh id is prepared before any branch", "ok",
                   "the fresh uuid is not assigned on every path before appending", ai.where)
     ca = vc.lookup_method("_check_add_ids")
-    args = [unparse(e.call.args[0]) for e in effect_calls(prog, ca, lambda c: isinstance(c.func, ast.Attribute) and c.func.attr == "_add_id" and len(c.args) == 1,
+    args = [unparse(e.call.args[0]) for e in effect_calls(prog, ca, lambda c: call_name(c).split(".")[-1] == "_add_id" and len(c.args) == 1,
                                                            expanded=True)]
     good = any(a.endswith(".getroot()") for a in args) and any(re.search(r"^EACH\(.*\.iter\('section'\)\)$", a) for a in args) \
         and any(re.search(r"^EACH\(.*\.iter\('property'\)\)$", a) for a in args)
@@ -280,7 +294,7 @@ def run(prog, rep):
                       "Property names, and clears the Property map once per Section")
     rs = vc.lookup_method("_replace_same_name_entities")
     rep.saw_function(rs)
-    cs = [c for c in calls_in(rs.node) if call_name(c).endswith("._change_entity_name")]
+    cs = [c for c in calls_in(rs.node) if call_name(c).split(".")[-1] == "_change_entity_name"]
     maps = [unparse(c.args[1]) for c in cs if len(c.args) >= 3]
     names = [unparse(c.args[2]) for c in cs if len(c.args) >= 3]
     ok = len(cs) == 2 and len(set(maps)) == 2
@@ -291,7 +305,13 @@ def run(prog, rep):
         rx = Expander(rs)
         xnames = [rx.text(c.args[2]) for c in cs]
         pm = [m for m, n in zip(maps, xnames) if "iter('property')" in n][0] if any("iter('property')" in n for n in xnames) else maps[1]
-        rep.check("%s.clear()" % pm in unparse(rs.node), "MAP-1", "Property map reset per Section", "ok",
+        # reset once per Section: <map>.clear(), or the map is re-bound to a fresh container inside the loop over the Sections
+        sec_loops = [n for n in walk_no_nested(rs.node) if isinstance(n, ast.For) and "iter('section')" in unparse(n.iter)]
+        rebound = any(isinstance(y, ast.Assign) and any(isinstance(t0, ast.Name) and t0.id == pm for t0 in y.targets)
+                      and isinstance(y.value, (ast.Dict, ast.Call)) and (not isinstance(y.value, ast.Dict) or not y.value.keys)
+                      and (not isinstance(y.value, ast.Call) or (call_name(y.value).split(".")[-1] in ("dict", "Counter", "defaultdict", "OrderedDict")))
+                      for lp0 in sec_loops for y in lp0.body)
+        rep.check("%s.clear()" % pm in unparse(rs.node) or rebound, "MAP-1", "Property map reset per Section", "ok",
                   "the Property name map is not cleared per Section", rs.where, witness="equal Property names in different Sections get suffixes")
 
     # ----------------------------------------------------------------- MAP-2
@@ -348,11 +368,22 @@ def run(prog, rep):
 
     def lits(e):
         return [v for k, v in (template_parts(None, e) or []) if k == "lit"]
-    wraps = [n for n in hg.nodes if n.kind == "stmt" and isinstance(n.ast, ast.Assign) and len(lits(n.ast.value)) >= 2
-             and lits(n.ast.value)[0].startswith("[") and lits(n.ast.value)[-1].endswith("]")]
+    from ..astutil import value_cases
+
+    def wrap_cases(n):
+        """[(atoms of the case)] for every alternative of the assigned value that wraps a text in '[' ... ']'"""
+        out = []
+        if n.kind == "stmt" and isinstance(n.ast, ast.Assign):
+            for expr, atoms in value_cases(n.ast.value):
+                ls = lits(expr)
+                if len(ls) >= 2 and ls[0].startswith("[") and ls[-1].endswith("]"):
+                    out.append(list(atoms))
+        return out
+    wraps = [n for n in hg.nodes if wrap_cases(n)]
     rep.check(len(wraps) == 1, "VAL-3", "one statement adds the list brackets", "ok", "%d statements add list brackets" % len(wraps), hp.where)
     for w in wraps:
-        flags = [t for t, p, br in atoms_at(hg, w) if p and t.isidentifier()]
+        flags = [t for t, p, br in atoms_at(hg, w) if p and t.isidentifier()] + \
+            [t for atoms in wrap_cases(w) for t, p in atoms if p and t.isidentifier()]
         commas = [n for n in hg.nodes if n.kind == "stmt" and isinstance(n.ast, (ast.AugAssign, ast.Assign))
                   and any(v0.strip() == "," for v0 in lits(n.ast.value))]
         good = len(flags) >= 1 and bool(commas) and len(vloops) == 1
